@@ -153,6 +153,6 @@ package sigbits
 // the real function on every run (bounded): L[j] is exactly the common-prefix length of shard j; the shard prefixes ascend strictly
 //@   checked forall j int :: 0 <= j && j < len(L) ==> lcpAll(keys, int(B[j]), int(B[j+1]), int(L[j])) && !lcpAll(keys, int(B[j]), int(B[j+1]), int(L[j]) + 1)
 //@   checked forall j int :: 0 <= j && j < len(L) - 1 ==> preLess(keys[int(B[j])], int(L[j]), keys[int(B[j+1])], int(L[j+1]))
-//@   witness-gen keys = func() []string { m := map[string]bool{}; if r.Intn(12) == 0 { p := string([]byte("ab\x00\xff")[:r.Intn(3)]); m[p] = true; for c := 0; c < 256; c++ { m[p+string([]byte{byte(c)})] = true }; if r.Intn(2) == 0 { m[p+"a"+"b"] = true } } else { n := 1 + r.Intn(12); for len(m) < n { b := make([]byte, r.Intn(5)); for i := range b { b[i] = "ab\x00\xff"[r.Intn(4)] }; m[string(b)] = true } }; ks := []string{}; for k := range m { ks = append(ks, k) }; sort.Strings(ks); return ks }()
+//@   witness-gen keys = func() []string { m := map[string]bool{}; if r.Intn(40) == 0 { p := string([]byte("ab\x00\xff")[:r.Intn(3)]); m[p] = true; for c := 0; c < 256; c++ { m[p+string([]byte{byte(c)})] = true }; if r.Intn(2) == 0 { m[p+"a"+"b"] = true } } else { n := 1 + r.Intn(12); for len(m) < n { b := make([]byte, r.Intn(5)); for i := range b { b[i] = "ab\x00\xff"[r.Intn(4)] }; m[string(b)] = true } }; ks := []string{}; for k := range m { ks = append(ks, k) }; sort.Strings(ks); return ks }()
 //@   witness-gen maxSize = int32(1 + r.Intn(7)) + int32(r.Intn(3)/2)*int32(r.Intn(300))
 //@   assigns nothing
